@@ -302,6 +302,27 @@ class TokenizerAnalysis:
                     if isinstance(t, ast.Attribute) and isinstance(t.value, ast.Name) and t.value.id == 'self':
                         stores.setdefault(t.attr, []).append((mn, v))
         s.stores = {f: [v for _, v in vs] for f, vs in stores.items()}
+        # a parameter without a bool default is boolean when every call of the method inside the class passes a bool constant,
+        # a comparison, or a boolean parameter of the caller for it (fixpoint)
+        changed = True
+        while changed:
+            changed = False
+            for mn in reach:
+                m = I.methods[mn]
+                pnames = [x.arg for x in m.args.args][1:]
+                for i_, pn_ in enumerate(pnames):
+                    if (mn, pn_) in bool_params:
+                        continue
+                    given = []
+                    for cm in reach:
+                        for n in ast.walk(I.methods[cm]):
+                            if isinstance(n, ast.Call) and isinstance(n.func, ast.Attribute) and isinstance(n.func.value, ast.Name) and n.func.value.id == 'self' and n.func.attr == mn:
+                                v_ = n.args[i_] if i_ < len(n.args) else next((k.value for k in n.keywords if k.arg == pn_), None)
+                                given.append((cm, v_))
+                    if given and all(v_ is not None and ((isinstance(v_, ast.Constant) and isinstance(v_.value, bool)) or isinstance(v_, ast.Compare)
+                                                        or (isinstance(v_, ast.Name) and (cm, v_.id) in bool_params)) for cm, v_ in given):
+                        bool_params.add((mn, pn_))
+                        changed = True
 
         def is_boolish(mn, v):
             if isinstance(v, ast.Constant) and isinstance(v.value, bool):
@@ -475,7 +496,7 @@ class TokenizerAnalysis:
         return [a for a in sorted(atoms) if a not in implied]
 
     # ---------------------------------------------------------------- one run
-    def run(s, mode, c04=False, verbose=False):
+    def run(s, mode, c04=False, verbose=False, _region=None):
         """full analysis for one concrete mode; returns a result dict (see end of method)"""
         t0 = time.time()
         I = s.I
@@ -487,9 +508,29 @@ class TokenizerAnalysis:
         for q in accept:
             sig = tuple(sorted(show(c) for c in q.cons))
             groups.setdefault(sig, []).append(q)
-        if len(groups) != 1:
-            raise AnalysisError('constructor accept region is not a single conjunction (%d regions)' % len(groups))
-        ctor = accept[0]
+        if len(groups) > 6:
+            raise AnalysisError('constructor accept region splits into %d regions (more than the analysis runs separately)' % len(groups))
+        if len(groups) != 1 and _region is None:
+            # the constructor distinguishes cases of the parameters (a flag pre-computed from a comparison, a clamped value ...): the
+            # loop analysis is run once per case, each with that case's constraints and field values, and the results are merged
+            merged = None
+            for gi, sig in enumerate(sorted(groups)):
+                r_ = s.run(mode, c04=c04, verbose=verbose, _region=sig)
+                if merged is None:
+                    merged = r_
+                    merged['accept_regions'] = [r_['accept_region']]
+                else:
+                    merged['obligations'] += r_['obligations']
+                    merged['alarms'] += r_['alarms']
+                    merged['leaves'] += r_['leaves']
+                    merged['keys'] += r_['keys']
+                    merged['rounds'] = max(merged['rounds'], r_['rounds'])
+                    merged['wall_s'] = round(merged['wall_s'] + r_['wall_s'], 2)
+                    merged['accept_regions'].append(r_['accept_region'])
+                    for k_ in ('invariants', 'taint'):
+                        merged[k_].update({'[case %d] %s' % (gi, kk): vv for kk, vv in r_[k_].items()})
+            return merged
+        ctor = groups[_region][0] if _region is not None else accept[0]
         params = list(ctor.cons)
         if c04:
             params.append(le(i0_, C(1)))
